@@ -747,7 +747,8 @@ class Term(Container):
         for o in self.objects:
             diag_obj, sub_obj = o.diagonalize_fock(target, return_sympy=True)
             diag *= diag_obj
-            if any(k in sub and sub[k] != v for k, v in sub_obj.items()):
+            if any((k in sub and sub[k] != v) or v in sub or
+                   k in sub.values() for k, v in sub_obj.items()):
                 raise NotImplementedError("Did not implement the case of "
                                           "multiple fock matrix elements with "
                                           f"intersecting indices: {self}")
